@@ -286,6 +286,45 @@ static void *churnrs_worker(void *va) {
     }
     return NULL;
 }
+/* ------------------------------------------------------------------ E: descriptors that no create ever returned (0, -1, a
+   large never-issued one) probed from other threads while instances are being created and destroyed: refused at every moment */
+static volatile int g_probe_stop = 0;
+static void *probe_worker(void *va) {
+    churn_a *a = va; static const int never[] = { 0, -1, 0x7fff0000, -2147483647 };
+    while (!g_probe_stop) for (int q = 0; q < 4; q++) {
+        if (liberasurecode_get_fragment_size(never[q], 64) >= 0) a->bad++;
+        if (liberasurecode_get_minimum_encode_size(never[q]) >= 0) a->bad++;
+        if (liberasurecode_decode_cleanup(never[q], NULL) == 0) a->bad++;
+        if (liberasurecode_encode_cleanup(never[q], NULL, NULL) == 0) a->bad++;
+    }
+    return NULL;
+}
+static void *probe_churner(void *va) {
+    churn_a *a = va; unsigned char data[64]; memset(data, 7 + a->tid, sizeof data);
+    static const int shp[][4] = { {0,3,2,2}, {3,3,3,3}, {6,2,1,1}, {3,5,5,3} };
+    for (int it = 0; it < a->iters; it++) {
+        const int *sh = shp[(it + a->tid) % 4];
+        struct ec_args ar; memset(&ar, 0, sizeof ar); ar.k = sh[1]; ar.m = sh[2]; ar.hd = sh[3]; ar.ct = CHKSUM_NONE;
+        int d = liberasurecode_instance_create((ec_backend_id_t)sh[0], &ar);
+        if (d <= 0) { a->bad++; continue; }
+        char **ed = NULL, **ep = NULL; uint64_t fl = 0;
+        if (liberasurecode_encode(d, (char *)data, 64, &ed, &ep, &fl) != 0) a->bad++; else liberasurecode_encode_cleanup(d, ed, ep);
+        if (liberasurecode_instance_destroy(d) != 0) a->bad++;
+    }
+    return NULL;
+}
+static void run_probe(void *va, FILE *out) {
+    int *cfg = va; int T = cfg[0], iters = cfg[1]; pthread_t th[MAXT], pr[2]; churn_a a[MAXT], p[2]; int bad = 0;
+    if (g_progress) snprintf(g_progress, 200, "probing never-issued descriptors while %d threads create and destroy instances", T);
+    g_probe_stop = 0;
+    for (int q = 0; q < 2; q++) { p[q] = (churn_a){ q, 0, 0 }; pthread_create(&pr[q], NULL, probe_worker, &p[q]); }
+    for (int t = 0; t < T; t++) { a[t] = (churn_a){ t, iters, 0 }; pthread_create(&th[t], NULL, probe_churner, &a[t]); }
+    for (int t = 0; t < T; t++) { pthread_join(th[t], NULL); bad += a[t].bad; }
+    g_probe_stop = 1;
+    for (int q = 0; q < 2; q++) { pthread_join(pr[q], NULL); bad += p[q].bad; }
+    if (bad) fprintf(out, "DIFFERENT %d", bad); else fprintf(out, "ok");
+}
+
 typedef struct { int threads, iters; } churnrs_t;
 static void run_churnrs(void *va, FILE *out) {
     churnrs_t *c = va; pthread_t th[MAXT]; churn_a a[MAXT]; int bad = 0;
@@ -329,6 +368,12 @@ void suite_conc(int tier) {
         op_begin("conc churnrs %d", c.threads); op_sep();
         if (tsan) { run_churnrs(&c, stdout); res_nl(); } else guarded(run_churnrs, &c);     /* a crash of the child is the result */
         stat_add("conc.churnrs_iterations", (long)c.threads * c.iters);
+    }
+    for (unsigned ti = 0; ti < (tier ? 3u : 1u); ti++) {
+        int cfgp[2] = { tcounts[ti + 1], tsan ? (tier ? 1500 : 400) : (tier ? 20000 : 4000) };
+        op_begin("conc probe0 %d", cfgp[0]); op_sep();
+        if (tsan) { run_probe(cfgp, stdout); res_nl(); } else guarded(run_probe, cfgp);
+        stat_add("conc.probe_iterations", (long)cfgp[0] * cfgp[1]);
     }
     for (unsigned ti = 0; ti < (tier ? 5u : 3u); ti++) {
         int T = tcounts[ti];
